@@ -132,7 +132,7 @@ def build_coq(jobs=16, timeout=3000):
            os.path.getmtime(os.path.join(COQ, "Makefile")) < os.path.getmtime(os.path.join(COQ, "_CoqProject")):
             subprocess.run(["coq_makefile", "-f", "_CoqProject", "-o", "Makefile"], cwd=COQ, check=True,
                            capture_output=True)
-        p = subprocess.run(["timeout", str(timeout), "make", "-j%d" % jobs], cwd=COQ,
+        p = subprocess.run(["timeout", str(timeout), "make", "-k", "-j%d" % jobs], cwd=COQ,
                            capture_output=True, text=True)
         return p.returncode, (p.stdout[-3000:] + p.stderr[-6000:])
 
@@ -156,9 +156,10 @@ def proof_stage(props_file, tier):
         res["errors"].append("forbidden declarations: " + "; ".join(bad[:10]))
     rc, log = build_coq()
     if rc != 0:
-        res["errors"].append("make failed (rc=%s): %s" % (rc, log[-3000:]))
-        # find which theorem/file failed if possible
-        return res
+        # some file of the development does not build; whether that concerns this property is
+        # decided by compiling its Props file below (it fails if any of its dependencies is missing)
+        res["make_rc"] = rc
+        res["make_log_tail"] = log[-1500:]
     with _lock():
         p = subprocess.run(["timeout", "900", "coqc", "-Q", COQ, "Eliot", path], capture_output=True, text=True, cwd=COQ)
     if p.returncode != 0:
